@@ -410,6 +410,29 @@ def judge_bucket(ctx, case, impl, replies):
     return None
 
 
+def run_bucketnames_impl(s3, case):
+    """404s in several buckets of one store whose names extend each other: [bucket name, state n/e/m] per call"""
+    arr = ARRAYS[0]
+    s3.reset()
+    store = make_store(s3.url, case['budget'], SAFE_RT)
+    out = []
+    for bucket, state in case['calls']:
+        with s3.lock:
+            if state in ('n', 'e'):
+                s3.buckets.add(bucket)
+            if state == 'n':
+                s3.objects[f'/{bucket}/zz-other'] = b'x'
+            del s3.requests[:]
+        slices = tuple(slice(0, n) for n in arr.shape)
+        try:
+            store.get_chunk(f'{bucket}/x', slices, arr.dtype)
+            cls = 'data'
+        except Exception as e:   # noqa: BLE001
+            cls = classify(e)
+        out.append([cls, s3.count(f'/{bucket}')])
+    return dict(calls=out)
+
+
 # ------------------------------------------------------------------ tokens
 
 def b64(b):
@@ -515,7 +538,7 @@ def run_token_impl(s3, case):
     s3.reset()
     s3.buckets.add(BUCKET)
     s3.require_token = tok
-    host = {'127.0.0.1': '127.0.0.1', 'localhost': 'localhost'}[case['host']]
+    host = case['host']            # look-alike hosts are construction-only cases: nothing is ever sent to them
     url = f"{case['scheme']}://{host}:{s3.port}"
     kw = dict(timeout=(2.0, SAFE_RT), retries=0, token=tok)
     if case.get('creds'):
@@ -872,6 +895,11 @@ def gen_token_cases(ctx):
         cases.append(dict(kind='token', tok=d, now=now, scheme='https', host='localhost', path=path,
                           construct_only=True))
     cases.append(dict(kind='token', tok=good, now=now, scheme='http', host='127.0.0.1', path=path, creds=True))
+    # plain http towards hosts whose name merely starts with / contains the loopback address: a good token must be
+    # refused at construction, before anything could be sent
+    for h in ('127.0.0.1.archive.example.org', '127.0.0.1@archive.example.org', '127.0.0.10', 'x127.0.0.1',
+              '127.0.0.1.', 'archive.example.org'):
+        cases.append(dict(kind='token', tok=good, now=now, scheme='http', host=h, path=path, construct_only=True))
     if ctx.tier != 'quick':
         fields = dict(nparts=[1, 2, 3, 4], hdr=['ES256', 'HS256', 'noalg', 'notjson', 'badb64'],
                       sig=['A' * 86, 'A' * 85, 'AAAA', 'AAAAA', ''], payload=['obj', 'list', 'badb64'],
@@ -929,6 +957,9 @@ def evaluate(ctx, s3, cases):
         elif kind == 'knob':
             impl = run_knob_impl(s3, case)
             ls = []
+        elif kind == 'bucketnames':
+            impl = run_bucketnames_impl(s3, case)
+            ls = []
         else:
             raise Broken(f'unknown case kind {kind}')
         impls.append(impl)
@@ -974,6 +1005,17 @@ def evaluate(ctx, s3, cases):
             ctx.count(('token', json.dumps(case['tok'], sort_keys=True), case['scheme'], case['host'],
                        bool(case.get('creds'))), nontrivial=True,
                       sample={'token': case['tok'], 'url': f"{case['scheme']}://{case['host']}", 'impl': case['impl']})
+        elif kind == 'bucketnames':
+            case['impl'] = impl['calls']
+            for (bucket, state), (cls, nlist) in zip(case['calls'], impl['calls']):
+                want = ('notfound', None) if state == 'n' else ('unavailable', 1)
+                if cls != want[0] or (want[1] is not None and nlist != want[1]):
+                    v = (f"404 in bucket {bucket!r} ({'non-empty' if state == 'n' else 'missing' if state == 'm' else 'empty'}) "
+                         f'after the calls {case["calls"][:case["calls"].index([bucket, state])]}: got ({cls}, {nlist} '
+                         f'listing requests), the documented rule gives {want[0]} (a bucket is identified by its whole name)')
+                    break
+            ctx.tag('bucket-names')
+            ctx.count(('bucketnames', json.dumps(case['calls'])), nontrivial=True)
         else:
             case['impl'] = [impl['cls'], impl['n']]
             if (impl['cls'], impl['n']) != ('auth', 1):
@@ -1068,6 +1110,11 @@ def run(ctx):
         cases = corpus_cases()
         cases += gen_word_cases(ctx)
         cases += gen_bucket_cases(ctx)
+        b11 = dict(total=10, connect=1, read=1, status=1)
+        for calls in ([['cb-sdp-l1', 'n'], ['cb-sdp-l1-flags', 'm']], [['cb-sdp-l1', 'n'], ['cb-sdp-l1-flags', 'e']],
+                      [['cb-sdp-l1-flags', 'm'], ['cb-sdp-l1', 'n'], ['cb-sdp-l1-flags', 'm']],
+                      [['cb', 'n'], ['cb2', 'e'], ['c', 'm'], ['cb', 'n']]):
+            cases.append(dict(kind='bucketnames', budget=b11, calls=calls))
         cases += gen_token_cases(ctx)
         cases += gen_misc_cases(ctx)
         bad = evaluate(ctx, s3, cases)
